@@ -331,15 +331,15 @@ func (r *Reader) initFields() error {
 }
 
 func (r *Reader) getSource(ent *TOCEntry) (_ *TOCEntry, err error) {
-	if ent.Type == "hardlink" {
+	for depth := 0; ent.Type == "hardlink"; depth++ {
+		if depth > len(r.m) {
+			return nil, fmt.Errorf("%q is a hardlink but its link chain doesn't end (cyclic hardlinks)", ent.Name)
+		}
 		org, ok := r.m[cleanEntryName(ent.LinkName)]
 		if !ok {
 			return nil, fmt.Errorf("%q is a hardlink but the linkname %q isn't found", ent.Name, ent.LinkName)
 		}
-		ent, err = r.getSource(org)
-		if err != nil {
-			return nil, err
-		}
+		ent = org
 	}
 	return ent, nil
 }
